@@ -52,10 +52,26 @@ func c18Base() *spec.Program {
 	m("RootG", nil, f("GStr", 1, spec.KString), f("GItems", 2, spec.KMessage, ref("Holder"), list), f("GMap", 3, spec.KMessage, ref("Holder"), mp, nn))
 	m("RootBExt", nil, f("BxStr", 1, spec.KString), f("BxInner", 2, spec.KMessage, ref("Inner")))
 	m("RootD2", nil, f("D2Str", 1, spec.KString))
+	// a chain of twelve nested messages (singular, list and map links alternate)
+	for i := 12; i >= 1; i-- {
+		fs := []spec.Field{f(fmt.Sprintf("D%dStr", i), 1, spec.KString)}
+		if i < 12 {
+			nx := f("Next", 2, spec.KMessage, ref(fmt.Sprintf("D%d", i+1)))
+			switch i % 3 {
+			case 1:
+				nx.Card = spec.CardList
+			case 2:
+				nx.Card = spec.CardMap
+			}
+			fs = append(fs, nx)
+		}
+		m(fmt.Sprintf("D%d", i), nil, fs...)
+	}
+	m("RootDeep", nil, f("DeepStr", 1, spec.KString), f("Chain", 2, spec.KMessage, ref("D1")))
 	m("Clean", nil, f("Name", 1, spec.KString), f("Count", 2, spec.KInt64), f("Inner", 3, spec.KMessage, ref("Inner"), nn))
 	m("Unselected", nil, f("UStr", 1, spec.KString))
 	p.Config = spec.Config{
-		Types:          []string{"RootAExt", "RootA", "RootF", "RootB", "RootC", "RootD", "RootE", "RootG", "RootBExt", "RootD2", "Clean"},
+		Types:          []string{"RootAExt", "RootA", "RootF", "RootB", "RootC", "RootD", "RootE", "RootG", "RootDeep", "RootBExt", "RootD2", "Clean"},
 		ComputedFields: []string{"Clean.Count"},
 		// configured although duration_type is not: a field cast to it has no mapping
 		DurationCustomType: spec.DurationCastName,
@@ -143,6 +159,9 @@ var badPositions = []badPos{
 	{name: "map-value", msg: "MV", pathKeys: func(f string) []string { return []string{"RootC.CVals." + f} }},
 	{name: "oneof-branch-message", msg: "OB", pathKeys: func(f string) []string { return []string{"RootD.PickO." + f} }},
 	{name: "oneof-branch-direct", msg: "RootD", oneof: "Pick", pathKeys: func(f string) []string { return []string{"RootD." + f} }},
+	{name: "depth-12", msg: "D12", pathKeys: func(f string) []string {
+		return []string{"RootDeep.Chain" + strings.Repeat(".Next", 11) + "." + f}
+	}},
 	{name: "embedded", msg: "EmbX", pathKeys: nil},
 	// README: options below an embedded field are keyed by the name of the embedding message
 	{name: "embedded-in-element", msg: "EmbY", pathKeys: func(f string) []string { return []string{"Holder." + f} }},
@@ -224,7 +243,8 @@ func C18RealCases(seed uint64, tier string) ([]*Case, map[string]int) {
 					cases = append(cases, &Case{Property: "C18", Clause: "excluded/path-key/" + k.name + "@" + pos.name, Seed: seed, Tier: tier, Program: pa,
 						Ref: refRun(b), Run: runFrom(pa.Config.Render(nil, nil)), Expect: Expect{Kind: "atomic", Roots: p.Config.Types}})
 					// a path key restores only the occurrence it names: every other occurrence still drops its root
-					if len(keys) > 1 {
+					partial := tier == "thorough" || strings.HasPrefix(k.name, "time-without") || strings.HasPrefix(k.name, "map-int32") || strings.HasPrefix(k.name, "custom-duration-cast-without")
+					if len(keys) > 1 && partial {
 						for ki, key := range keys {
 							pp := cloneProgram(p)
 							pp.Config.ExcludeFields = append(pp.Config.ExcludeFields, key)
